@@ -103,6 +103,31 @@ def copied_values(chk, b):
             chk.fail("value-changed-by-its-copy", inp, "%s -> %s" % (want.hex(), enc.hex()))
 
 
+def inplace_values(chk, drv, b):
+    """values built by Cls() and filled IN PLACE (m.sub.items.append(x), m.table[k] = v, m.sub.leaf.x = 1): the holders are not
+    marked `serialized_on_wire`, but what they hold is part of the value and must survive the round trip"""
+    from props.c09 import fill_inplace
+    lines, wants = [], []
+    for v in b.values[:5]:
+        ci = v[1]
+        try:
+            m = b.classes[ci]()
+            t = fill_inplace(m, b, ci, v, chk.rng)
+        except Exception as e:
+            chk.count("inplace_skipped_" + type(e).__name__)
+            continue
+        inp = {"schema": b.describe(), "value": bpgen.term(v), "built_in_place": t}
+        chk.count("built_in_place")
+        enc, _ = oracle(chk, inp, m, b.classes[ci], b.schema, ci)
+        if drv and isinstance(enc, bytes):
+            lines.append("DUMP %s %s" % (b.sid, t))
+            wants.append(W.hexs(enc))
+    if drv and lines:
+        for ln, r, w in zip(lines, drv.ask(lines), wants):
+            if r != w:
+                chk.disagree("bytes-inplace", {"schema": b.schema_line(), "line": ln}, r, w)
+
+
 def one_batch(chk, drv, b):
     if drv:
         assert drv.ask1(b.schema_line()) == "ok"
@@ -117,6 +142,7 @@ def one_batch(chk, drv, b):
         if enc is not None and m2 is not None:
             staged.append((v, ci, enc, m2))
     copied_values(chk, b)
+    inplace_values(chk, drv, b)
     if drv and staged:
         lines = []
         for v, ci, enc, m2 in staged:
